@@ -388,6 +388,47 @@ R.contract(
 R.spec_funcs.update({"is_tuple": lambda it, v: isinstance(v, tuple), "tuple_of": lambda it, xs: tuple(xs), "sorted_texts": lambda it, xs: sorted(xs)})
 
 
+# ------------------------------------------------------------------------------------------------- make_operation: the operation offered carries every collected parameter (+ the security ones when configured)
+def _op_ctor(it, env):
+    from pyvc.values import VObj
+
+    op = VObj(it.resolve_class("spec:BuiltOperation"), {k: env.get(k) for k in ("path", "method", "definition", "base_url", "app", "schema")})
+    op.fields["added"] = []
+    it.ghost["built"] = op
+    return op
+
+
+R.contract("schemathesis.schemas:APIOperation", abstract_only=True, args={}, returns=_op_ctor, note="dataclass constructor")
+R.contract("schemathesis.schemas:OperationDefinition", abstract_only=True, args={"raw": Opq("Any"), "resolved": Opq("Any"), "scope": Opq("Any")},
+           returns=lambda it, env: ("definition", env["raw"], env["resolved"], env["scope"]), note="dataclass constructor")
+R.nominal_methods["spec:BuiltOperation"] = {"add_parameter": lambda it, obj, a, k: obj.fields.__setitem__("added", obj.fields["added"] + [a[0]])}
+R.nominal_methods["spec:SecurityProc"] = {"process_definitions": lambda it, obj, a, k: it.ghost.__setitem__("security_processed", it.ghost["security_processed"] + [(a[0], a[1], a[2])])}
+R.nominal_methods["spec:MakingSchema"] = {"get_base_url": lambda it, obj, a, k: "http://127.0.0.1/api",
+                                          "dispatch_hook": lambda it, obj, a, k: it.ghost.__setitem__("hooks", it.ghost["hooks"] + [(a[0], a[2] if len(a) > 2 else None)])}
+_hc = R.contracts.get("schemathesis.hooks:HookContext")
+R.contract(
+    OAS_ + "BaseOpenAPISchema.make_operation",
+    variant="assembly",
+    prop="C08",
+    args={"self": Obj("spec:MakingSchema", app=NoneT, security=Obj("spec:SecurityProc"), raw_schema=Opq("RawSchemaRef"), resolver=Opq("ResolverRef"),
+                      generation_config=Obj("spec:GenCfg8", with_security_parameters=Bool)),
+          "path": Str, "method": Str, "parameters": ListOf(Opq("CollectedParameter"), [0, 1, 2, 3]), "raw": Opq("RawDef"), "resolved": Opq("ResolvedDef"), "scope": Str,
+          "with_security_parameters": OneOf(NoneT, Bool)},
+    ghost={"built": None, "security_processed": [], "hooks": []},
+    raises=[],
+    ensures={
+        "every_collected_parameter_is_added_in_order": "result is ghost('built') and length(result.added) == length(parameters) and all(result.added[i] is parameters[i] for i in range(length(parameters)))",
+        "the_operation_is_the_documented_one": "result.path == path and result.method == method and result.definition == ('definition', raw, resolved, scope) and result.schema is self",
+        # security schemes become parameters iff asked for: the explicit argument wins, the generation configuration is the default
+        "security_parameters_iff_configured": "iff(length(ghost('security_processed')) == 1, with_security_parameters if with_security_parameters is not None else self.generation_config.with_security_parameters) and "
+                                              "length(ghost('security_processed')) <= 1 and all(sp[1] is result and sp[0] is self.raw_schema for sp in ghost('security_processed'))",
+        "before_init_operation_hooks_see_the_finished_operation": "ghost('hooks') == [('before_init_operation', result)]",
+    },
+    bounded_note="up to 3 collected parameters",
+    replayable=False,
+)
+
+
 # ------------------------------------------------------------------------------------------------- resolve_all: every reference in a definition is replaced by what it points to
 REFS = "schemathesis.specs.openapi.references:"
 _TABLE = {"#/components/x": {"type": "string", "maxLength": 3}, "#/components/y": {"$ref": "#/components/x"},
